@@ -317,8 +317,11 @@ func (li *Listener) Close() error {
 	li.doneOnce.Do(func() {
 		close(li.doneChan)
 	})
+	// the QUIC listener first: closing the packet connection under it while it is still open makes its transport
+	// shut the listener down from the read loop, and the two closes wait for each other
+	qerr := li.ql.Close()
 	perr := li.pc.Close()
-	if qerr := li.ql.Close(); qerr != nil {
+	if qerr != nil {
 		return qerr
 	}
 
